@@ -42,7 +42,7 @@ PURE_OPS = {'load', 'getelementptr', 'zext', 'trunc', 'sext', 'bitcast', 'ptrtoi
 
 
 import re as _re
-_ARR = _re.compile(r'^\[(\d+) x i(8|16|32|64)\]$')
+_ARR = _re.compile(r'^\[(\d+) x i(8|16|32|64)\]\*?$')
 
 
 class Stop(Exception):
